@@ -508,7 +508,19 @@ func RunConcurrent(s Scenario, c ConcConfig, r *rand.Rand, gid func() int, regis
 			}
 			out = append(out, apiArg(l, vals[j], 1)) // variant 1: NamedSubtype / TypedSubtype spellings
 		}
-		return append(out, b.CnvArgs...)
+		// run-once converters as pre-built objects, the others as one raw Converter(fn, fn, ...) option
+		var raw []interface{}
+		for i, c := range b.Convs {
+			if s.Convs[i].Once {
+				out = append(out, am.ConverterFunc(c))
+			} else {
+				raw = append(raw, c.Func())
+			}
+		}
+		if len(raw) > 0 {
+			out = append(out, am.Converter(raw...))
+		}
+		return out
 	}
 	sharedOpts := mkOpts()
 	targets := make([]*am.Func, c.G+1)
